@@ -173,6 +173,8 @@ fn inputs_of(case: &GraphCase) -> Vec<String> {
                 v.push(p.clone());
                 v.push(format!("{p}.txtpp"));
                 v.push(format!("./{p}"));
+                // a spelling with `..` (directory `alias` always exists in graph projects)
+                v.push(format!("alias/../{p}"));
             }
             4 => {}
             _ => v.push(p),
@@ -200,7 +202,7 @@ pub fn exec(ctx: &mut Ctx, case: &GraphCase, spec: Spec, log_events: bool) -> Gr
     let mlog_s = mlog.to_string_lossy().to_string();
     let olog_s = olog.to_string_lossy().to_string();
     let files = build_files(case, 1, Some(&mlog_s), Some(&olog_s));
-    let mut dirs = vec![];
+    let mut dirs = vec!["alias".to_string()];
     if case.subdirs {
         dirs.push("d".to_string());
     }
